@@ -120,6 +120,11 @@ def run(cx):
     # sent and received intact
     from bits import check_headers
     check_headers(cx, "C05.o", "C05.p")
+    # both ends round the allocation limit alike; the per-frame datagram count fits its 7-bit wire field
+    from props.C06 import inst_sibling_accounting
+    inst_sibling_accounting(cx, "C05.q")
+    from props.C01 import inst_id_arith
+    inst_id_arith(cx, "C05.r")
     with cx.instance("C05.e", "T3 WHO-MAY", "the send queue loses packets only through the stale-TimeSensitive drop and the move into the send window", floor=2) as inst:
         b = R.body("PacketSender::emit_packet")
         pops = call_sites(b, "VecDeque::pop_front", r"arg1\.packet_send_queue")
